@@ -22,6 +22,20 @@ type dumper struct {
 	opt     Options
 	missing []string
 	path    []string
+	opComm  int
+}
+
+// Info is the full result of a dump.
+type Info struct {
+	Text            string
+	Missing         []string
+	OperandComments int // comments that are not statements of a block (operands): "the program without comments" is undefined for those
+}
+
+func DumpInfo(n ast.Node, opt Options) Info {
+	d := &dumper{opt: opt}
+	d.node(n, "root")
+	return Info{Text: d.sb.String(), Missing: d.missing, OperandComments: d.opComm}
 }
 
 // Dump returns the S-expression and the list of places where a required child is missing (nil).
@@ -98,6 +112,9 @@ func (d *dumper) node(n ast.Node, what string) {
 		if n == nil {
 			d.miss(what)
 			return
+		}
+		if !strings.HasPrefix(what, "stmt") {
+			d.opComm++
 		}
 		d.sb.WriteString("(comment " + tok(n.Token) + ")")
 	case *ast.IntegerLiteral:
